@@ -22,40 +22,73 @@ func fuzzFail(t *testing.T, spec report.Spec, c any, o report.Outcome) {
 	t.Fatalf("property %s violated: %s", spec.Property, o.Fail)
 }
 
-// FuzzC06: bytes -> ring structure on the quarter pixel lattice of a 4x4 pixel window -> SnapPolygon.
-func FuzzC06(f *testing.F) {
-	f.Add([]byte{0, 2, 2, 6, 2, 6, 6, 2, 6})
-	f.Add([]byte{1, 2, 2, 6, 6, 2, 2, 6, 6, 2, 2, 10, 10, 6, 6, 10, 10})                // zig-zag between two centres
-	f.Add([]byte{3, 2, 2, 6, 6, 10, 2, 6, 6, 2, 2, 255, 6, 6, 10, 10, 6, 10})           // two rings, back-track
-	f.Add([]byte{2, 0, 0, 16, 0, 16, 16, 0, 16, 255, 4, 4, 4, 8, 8, 8, 8, 4})           // shell with hole on pixel borders
-	f.Add([]byte{7, 2, 2, 6, 6, 2, 2, 6, 6, 2, 2, 6, 6, 10, 10, 6, 6, 10, 10, 6, 6, 2}) // repeated segments
-	f.Add([]byte{5})
+// fuzzPolygon decodes bytes into a case: flags and grid from the first byte, then pairs of bytes as quarter pixel lattice
+// positions in a 4x4 pixel window, 255 separating rings.
+func fuzzPolygon(data []byte) (c SnapCase, ok bool) {
+	if len(data) == 0 || len(data) > 600 {
+		return c, false
+	}
+	c = SnapCase{Q: 4, IDs: []int{0}}
+	c.Flags.Keep, c.Flags.Reverse = data[0]&1 != 0, data[0]&2 != 0
+	if data[0]&4 != 0 {
+		c.Grid = gen.GridSpec{Kind: "synthetic", NTM: 2, PxLog2: 0, OX: -8, OY: 24}
+		c.IDs = []int{1, 0}
+	} else {
+		c.Grid = gen.GridSpec{Kind: "synthetic", NTM: 1, PxLog2: 0}
+	}
+	ring := [][2]float64{}
+	rest := data[1:]
+	for i := 0; i+1 < len(rest); i += 2 {
+		if rest[i] == 255 {
+			c.Poly = append(c.Poly, ring)
+			ring = [][2]float64{}
+			i--
+			continue
+		}
+		ring = append(ring, [2]float64{c.Grid.OX + 4 + float64(rest[i]%17)/4, c.Grid.OY + 4 + float64(rest[i+1]%17)/4})
+	}
+	c.Poly = append(c.Poly, ring)
+	if len(c.Poly) > 4 {
+		c.Poly = c.Poly[:4]
+	}
+	return c, true
+}
+
+var fuzzSeeds = [][]byte{
+	{0, 2, 2, 6, 2, 6, 6, 2, 6},
+	{1, 2, 2, 6, 6, 2, 2, 6, 6, 2, 2, 10, 10, 6, 6, 10, 10},                // zig-zag between two centres
+	{3, 2, 2, 6, 6, 10, 2, 6, 6, 2, 2, 255, 6, 6, 10, 10, 6, 10},           // two rings, back-track
+	{2, 0, 0, 16, 0, 16, 16, 0, 16, 255, 4, 4, 4, 8, 8, 8, 8, 4},           // shell with hole on pixel borders
+	{7, 2, 2, 6, 6, 2, 2, 6, 6, 2, 2, 6, 6, 10, 10, 6, 6, 10, 10, 6, 6, 2}, // repeated segments
+	{6, 0, 0, 16, 0, 16, 16, 0, 16, 255, 1, 1, 15, 1, 15, 15, 1, 15},       // thin frame: shell and hole snap to the same ring
+	{5},
+}
+
+// FuzzC05: the structural invariants of C05 under coverage guidance.
+func FuzzC05(f *testing.F) {
+	for _, s := range fuzzSeeds {
+		f.Add(s)
+	}
 	f.Fuzz(func(t *testing.T, data []byte) {
-		if len(data) == 0 || len(data) > 600 {
+		c, ok := fuzzPolygon(data)
+		if !ok {
 			return
 		}
-		c := SnapCase{Q: 4, IDs: []int{0}}
-		c.Flags.Keep, c.Flags.Reverse = data[0]&1 != 0, data[0]&2 != 0
-		if data[0]&4 != 0 {
-			c.Grid = gen.GridSpec{Kind: "synthetic", NTM: 2, PxLog2: 0, OX: -8, OY: 24}
-			c.IDs = []int{1, 0}
-		} else {
-			c.Grid = gen.GridSpec{Kind: "synthetic", NTM: 1, PxLog2: 0}
+		if o := oracleC05(c); o.Fail != "" {
+			fuzzFail(t, specC05, c, o)
 		}
-		ring := [][2]float64{}
-		rest := data[1:]
-		for i := 0; i+1 < len(rest); i += 2 {
-			if rest[i] == 255 {
-				c.Poly = append(c.Poly, ring)
-				ring = [][2]float64{}
-				i--
-				continue
-			}
-			ring = append(ring, [2]float64{c.Grid.OX + 4 + float64(rest[i]%17)/4, c.Grid.OY + 4 + float64(rest[i+1]%17)/4})
-		}
-		c.Poly = append(c.Poly, ring)
-		if len(c.Poly) > 4 {
-			c.Poly = c.Poly[:4]
+	})
+}
+
+// FuzzC06: bytes -> ring structure on the quarter pixel lattice of a 4x4 pixel window -> SnapPolygon.
+func FuzzC06(f *testing.F) {
+	for _, s := range fuzzSeeds {
+		f.Add(s)
+	}
+	f.Fuzz(func(t *testing.T, data []byte) {
+		c, ok := fuzzPolygon(data)
+		if !ok {
+			return
 		}
 		if o := oracleC06(c); o.Fail != "" {
 			fuzzFail(t, specC06, c, o)
